@@ -6,7 +6,10 @@ open Wire C31
 ops (address texts are hex of their UTF-8 bytes, `-` = empty text):
   set <text,text,...|none>                   -> ok | panic          (blacklist configured from these spellings)
   parse <text>                              -> <raw hex> | none
-  core <active 0|1> <txv>                   -> pass | hit:<position>
+  (<active> below is `0`, `1` or `<height>:<forkHeight>`)
+  core <active> <txv>                       -> pass | hit:<position>
+  exec <active> f <txv> <base>              -> receipt of a para-chain forwarded transaction
+  poolp <reach> <forwarded> <base> <members> -> para-chain pool
   exec <active> s <txv> <base>              -> receipt types, comma separated (err|pack|ok)
   exec <active> g <txv>;<base>|<txv>;<base>...
   exec <active> p <outer txv> <inner txv | none> <base>
@@ -48,6 +51,12 @@ def poolRes? (s : String) : Option PoolRes :=
 def poolS : PoolRes → String
   | .accepted => "accepted" | .blocked => "blocked" | .other => "other"
 
+/-- activation token: `0` / `1`, or `<height>:<forkHeight>`. -/
+def act (s : String) : Bool :=
+  match s.splitOn ":" with
+  | [h, f] => (match h.toNat?, f.toNat? with | some h, some f => activeAt f h | _, _ => false)
+  | _ => s == "1"
+
 def txvs? (s : String) : Option (List TxV) := (s.splitOn "|").mapM txv?
 
 def step (set : List Raw) (line : String) : List Raw × String :=
@@ -69,10 +78,24 @@ def step (set : List Raw) (line : String) : List Raw × String :=
   | ["core", a, t] =>
     match txv? t with
     | none => (set, "bad-op")
-    | some t => (set, match check (a == "1") set t with | none => "pass" | some p => "hit:" ++ posS p)
+    | some t => (set, match check (act a) set t with | none => "pass" | some p => "hit:" ++ posS p)
   | ["exec", a, "s", t, b] =>
     match txv? t, ty? b with
-    | some t, some b => (set, ",".intercalate ((execItem (a == "1") set (.single t b)).map tyS))
+    | some t, some b => (set, ",".intercalate ((execItem (act a) set (.single t b)).map tyS))
+    | _, _ => (set, "bad-op")
+  | ["exec", a, "f", t, b] =>
+    match txv? t, ty? b with
+    | some t, some b => (set, ",".intercalate ((execItem (act a) set (.forwarded t b)).map tyS))
+    | _, _ => (set, "bad-op")
+  | ["poolp", r, f, b, l] =>
+    let ms := (l.splitOn "|").mapM fun m =>
+      match m.splitOn ";" with
+      | [t, a, i] => do
+        let inner ← (if i == "none" then some none else (txv? i).map some)
+        pure ({ outer := ← txv? t, addrOk := a == "1", inner := inner } : PoolTx)
+      | _ => none
+    match poolRes? b, ms with
+    | some b, some ts => (set, poolS (poolSubmitPara set ts (r == "1") (f == "1") b))
     | _, _ => (set, "bad-op")
   | ["exec", a, "g", l] =>
     let ms := (l.splitOn "|").mapM fun m =>
@@ -80,15 +103,15 @@ def step (set : List Raw) (line : String) : List Raw × String :=
       | [t, b] => do pure (← txv? t, ← ty? b)
       | _ => none
     match ms with
-    | some ms => (set, ",".intercalate ((execItem (a == "1") set (.group ms)).map tyS))
+    | some ms => (set, ",".intercalate ((execItem (act a) set (.group ms)).map tyS))
     | none => (set, "bad-op")
   | ["exec", a, "p", o, i, b] =>
     match txv? o, (if i == "none" then some none else (txv? i).map some), ty? b with
-    | some o, some i, some b => (set, ",".intercalate ((execItem (a == "1") set (.proxied o i b)).map tyS))
+    | some o, some i, some b => (set, ",".intercalate ((execItem (act a) set (.proxied o i b)).map tyS))
     | _, _, _ => (set, "bad-op")
   | ["prod", a, l] =>
     match txvs? l with
-    | some ts => (set, if producerTakes (a == "1") set ts then "take" else "skip")
+    | some ts => (set, if producerTakes (act a) set ts then "take" else "skip")
     | none => (set, "bad-op")
   | ["pool", r, b, l] =>
     let ms := (l.splitOn "|").mapM fun m =>
